@@ -5,7 +5,9 @@ import (
 	"context"
 	"encoding/base64"
 	"encoding/json"
+	"errors"
 	"fmt"
+	"github.com/tailscale/setec/types/api"
 	"os"
 	"path/filepath"
 	"strconv"
@@ -233,6 +235,7 @@ func checkC13(t *testing.T, env *report.Env, rep *report.Report) {
 	}
 	fileCacheCrashes(rep)
 	cacheFailures(rep)
+	ownCacheValues(rep)
 	shutdownFlush(rep)
 }
 
@@ -470,4 +473,112 @@ func cacheFailures(rep *report.Report) {
 	}
 	sec.States, sec.Transitions = sec.Evaluations, sec.Evaluations
 	sec.Samples = append(sec.Samples, "write#2 fails: lookup installs u, cache keeps the previous document, the poll's write then holds a and u")
+}
+
+// valueClient serves fixed values (version 1) for the names it knows and can be switched off.
+type valueClient struct {
+	vals map[string][]byte
+	down bool
+	reqs int
+}
+
+func (c *valueClient) Get(ctx context.Context, name string) (*api.SecretValue, error) {
+	c.reqs++
+	if c.down {
+		return nil, errors.New("service unreachable")
+	}
+	v, ok := c.vals[name]
+	if !ok {
+		return nil, api.ErrNotFound
+	}
+	return &api.SecretValue{Value: append([]byte(nil), v...), Version: 1}, nil
+}
+
+func (c *valueClient) GetIfChanged(ctx context.Context, name string, old api.SecretVersion) (*api.SecretValue, error) {
+	if !c.down && old == 1 {
+		if _, ok := c.vals[name]; ok {
+			return nil, api.ErrValueNotChanged
+		}
+	}
+	return c.Get(ctx, name)
+}
+
+// ownCacheValues: the document a store writes is accepted again by a store (and by the file-backed
+// client) whatever the values are - empty, binary, looking like JSON, long.
+func ownCacheValues(rep *report.Report) {
+	sec := rep.Add(&report.Section{Name: "restart-from-own-cache-unusual-values", Engine: "enum", Exhaustive: true, Extra: map[string]int64{},
+		Rule: "for each of eight values (empty, NUL, invalid UTF-8, a JSON object, a quote, 300 bytes, white space, text) as a declared secret, as a looked-up secret, and next to an ordinary one: the store writes its cache (memory and file cache), is closed, and a new store starts from that cache with the service unreachable: it must start at once without a request and serve the same bytes; the file-backed client must agree for non-empty values; non-trivial = all"})
+	values := [][]byte{{}, {0}, {0xff, 0xfe, 'x'}, []byte(`{"secret":{"Value":"eA==","Version":9}}`), []byte(`"`), bytes.Repeat([]byte("0123456789"), 30), []byte(" \n\t"), []byte("plain text")}
+	dir := hx.Scratch("c13own-")
+	defer os.RemoveAll(dir)
+	for vi, val := range values {
+		for _, how := range []string{"declared", "looked-up"} {
+			for _, kind := range []string{"mem", "file"} {
+				sec.Evaluations++
+				sec.Nontrivial++
+				desc := fmt.Sprintf("value %q %s, %s cache", report.Clip(string(val), 40), how, kind)
+				bad := func(k, msg string) {
+					rep.Violate(sec.Name, "own-cache/"+k+": "+desc, desc+": "+msg, map[string]any{"value": vi, "how": how, "cache": kind})
+				}
+				cl := &valueClient{vals: map[string][]byte{"odd": val, "plain": []byte("ordinary")}}
+				var cache setec.Cache
+				var path string
+				if kind == "mem" {
+					cache = setec.NewMemCache("")
+				} else {
+					path = filepath.Join(dir, fmt.Sprintf("cache-%d-%s.json", vi, how))
+					os.Remove(path)
+					fc, err := setec.NewFileCache(path)
+					if err != nil {
+						bad("harness", err.Error())
+						continue
+					}
+					cache = fc
+				}
+				cfg := setec.StoreConfig{Client: cl, Secrets: []string{"plain"}, AllowLookup: true, Cache: cache, PollInterval: -1, Logf: func(string, ...any) {}}
+				if how == "declared" {
+					cfg.Secrets = []string{"plain", "odd"}
+				}
+				st, err := setec.NewStore(context.Background(), cfg)
+				if err != nil {
+					bad("first-start", err.Error())
+					continue
+				}
+				if how == "looked-up" {
+					if _, err := st.LookupSecret(context.Background(), "odd"); err != nil {
+						bad("lookup", err.Error())
+					}
+				}
+				st.Close()
+				cl.down = true
+				cl.reqs = 0
+				ctx, cancel := context.WithTimeout(context.Background(), 2*time.Second)
+				st2, err := setec.NewStore(ctx, cfg)
+				cancel()
+				if err != nil {
+					bad("restart-refused", fmt.Sprintf("a store started from the cache its predecessor wrote, with the service unreachable, failed: %v", err))
+					continue
+				}
+				if cl.reqs != 0 {
+					bad("restart-requests", fmt.Sprintf("the restart sent %d requests although the cache was complete", cl.reqs))
+				}
+				h := st2.Secret("odd")
+				if h == nil {
+					bad("restart-lost", "the restarted store does not know the secret")
+				} else if got := h.Get(); !bytes.Equal(got, val) {
+					bad("restart-value", fmt.Sprintf("the restarted store serves %q", report.Clip(string(got), 40)))
+				}
+				st2.Close()
+				if kind == "file" && len(val) > 0 {
+					fcl, err := setec.NewFileClient(path)
+					if err != nil {
+						bad("fileclient-open", err.Error())
+					} else if sv, err := fcl.Get(context.Background(), "odd"); err != nil || !bytes.Equal(sv.Value, val) {
+						bad("fileclient-value", fmt.Sprintf("the file-backed client on the same file: %v", err))
+					}
+				}
+			}
+		}
+	}
+	sec.States, sec.Transitions = sec.Evaluations, sec.Evaluations
 }
